@@ -94,6 +94,7 @@ Definition lstep (st : lst) (canc : bool) (ev : event) : option lst :=
       | _, _ => None
       end
   | CBPost _ _ _ _ => None
+  | CPark _ _ => None
   end.
 
 Fixpoint lrun (st : lst) (canc : bool) (tr : list event) : option (lst * bool) :=
